@@ -697,3 +697,75 @@ func (s *aggSession) run(ops []plan.Op) {
 		}
 	}
 }
+
+// ---- snapshots for history-based checking (C13) ------------------------------
+
+var aggSnapNames = func() []string {
+	var n []string
+	n = append(n, "flowEndSeconds")
+	n = append(n, aggStats...)
+	n = append(n, aggSrcStats...)
+	n = append(n, aggDstStats...)
+	n = append(n, aggEndSecs...)
+	n = append(n, aggThr...)
+	n = append(n, aggSrcThr...)
+	n = append(n, aggDstThr...)
+	n = append(n, "tcpState")
+	return n
+}()
+
+// takeSnap reads the compared fields through get.
+func takeSnap(get func(string) (string, bool)) map[string]string {
+	m := map[string]string{}
+	for _, n := range aggSnapNames {
+		if v, ok := get(n); ok {
+			m[n] = v
+		} else {
+			m[n] = "<missing>"
+		}
+	}
+	return m
+}
+
+// expectedSnap is what the model says the compared fields are ("*" = either node's value is acceptable).
+func expectedSnap(f *aggFlow) map[string]string {
+	m := map[string]string{"flowEndSeconds": fmt.Sprint(f.End), "tcpState": f.TCP}
+	tot := [4]int{0, 2, 3, 5}
+	dlt := [2]int{1, 4}
+	for i, idx := range tot {
+		m[aggStats[idx]] = fmt.Sprint(f.Tot[i])
+		m[aggSrcStats[idx]] = fmt.Sprint(f.N[0].Tot[i])
+		m[aggDstStats[idx]] = fmt.Sprint(f.N[1].Tot[i])
+	}
+	for i, idx := range dlt {
+		m[aggStats[idx]] = fmt.Sprint(f.Dlt[i])
+		m[aggSrcStats[idx]] = fmt.Sprint(f.N[0].Delta[i])
+		m[aggDstStats[idx]] = fmt.Sprint(f.N[1].Delta[i])
+	}
+	for i := range aggThr {
+		m[aggThr[i]] = fmt.Sprint(f.Thr[i])
+		m[aggSrcThr[i]] = fmt.Sprint(f.N[0].Thr[i])
+		m[aggDstThr[i]] = fmt.Sprint(f.N[1].Thr[i])
+	}
+	m[aggEndSecs[0]] = fmt.Sprint(f.N[0].End)
+	m[aggEndSecs[1]] = fmt.Sprint(f.N[1].End)
+	if f.Ambig {
+		for _, idx := range dlt {
+			m[aggStats[idx]] = "*"
+		}
+		for i := range aggThr {
+			m[aggThr[i]] = "*"
+		}
+		m["tcpState"] = "*"
+	}
+	return m
+}
+
+func snapDiff(want, got map[string]string) string {
+	for _, n := range aggSnapNames {
+		if want[n] != "*" && want[n] != got[n] {
+			return fmt.Sprintf("%s = %s, sequential execution gives %s", n, got[n], want[n])
+		}
+	}
+	return ""
+}
